@@ -15,23 +15,25 @@ type SyncView struct {
 	EDS  *edsv1.ExtendedDaemonSet
 	ERS  *edsv1.ExtendedDaemonSetReplicaSet // ers sync: the replica set read
 
-	NodesRead bool
-	Nodes     map[string]*corev1.Node
-	NodeList  []*corev1.Node
-	PodsRead  bool
-	Pods      []*corev1.Pod // union of the pod lists read, unique by ns/name
-	Settings  []*edsv1.ExtendedDaemonsetSetting
-	ERSRead   bool
-	ERSList   []*edsv1.ExtendedDaemonSetReplicaSet
+	NodesRead    bool
+	Nodes        map[string]*corev1.Node
+	NodeList     []*corev1.Node
+	PodsRead     bool
+	Blind        bool // nodes, pods or settings substituted from the store (see View)
+	SettingsRead bool
+	Pods         []*corev1.Pod // union of the pod lists read, unique by ns/name
+	Settings     []*edsv1.ExtendedDaemonsetSetting
+	ERSRead      bool
+	ERSList      []*edsv1.ExtendedDaemonSetReplicaSet
 
-	PodCreates []*Call
-	PodDeletes []*Call
-	PodPatches []*Call
-	ERSCreates []*Call
-	ERSDeletes []*Call
+	PodCreates   []*Call
+	PodDeletes   []*Call
+	PodPatches   []*Call
+	ERSCreates   []*Call
+	ERSDeletes   []*Call
 	StatusWrites []*Call // updatestatus of EDS/ERS/Setting
-	SpecWrites []*Call   // update of EDS
-	Others     []*Call   // any other write
+	SpecWrites   []*Call // update of EDS
+	Others       []*Call // any other write
 }
 
 func (t *Task) View() *SyncView {
@@ -85,6 +87,7 @@ func (t *Task) View() *SyncView {
 					}
 				}
 			case KSetting:
+				v.SettingsRead = true
 				for _, b := range c.OutList {
 					o := &edsv1.ExtendedDaemonsetSetting{}
 					_ = json.Unmarshal(b, o)
@@ -118,6 +121,42 @@ func (t *Task) View() *SyncView {
 				v.SpecWrites = append(v.SpecWrites, c)
 			default:
 				v.Others = append(v.Others, c)
+			}
+		}
+	}
+	// A replica-set sync that creates or deletes pods without having read the nodes or the pods
+	// (the list failed and the code went on) is judged against what exists: correct code never
+	// gets here, so the substitution cannot raise an alarm on it.
+	if t.Ctrl == CtrlERS && len(v.PodCreates)+len(v.PodDeletes) > 0 && !v.SettingsRead && t.client != nil && !t.client.direct {
+		v.Blind = true
+		v.SettingsRead = true
+		for _, o := range t.client.sim.Store.Settings() {
+			v.Settings = append(v.Settings, o)
+		}
+	}
+	if t.Ctrl == CtrlERS && len(v.PodCreates)+len(v.PodDeletes) > 0 && (!v.NodesRead || !v.PodsRead) && t.client != nil && !t.client.direct {
+		st := t.client.sim.Store
+		v.Blind = true
+		if !v.NodesRead {
+			v.NodesRead = true
+			for _, n := range st.Nodes() {
+				v.Nodes[n.Name] = n
+				v.NodeList = append(v.NodeList, n)
+			}
+		}
+		if !v.PodsRead {
+			v.PodsRead = true
+			for _, c := range v.PodDeletes {
+				if p := podOfCall(c); p != nil && !seenPod[p.Namespace+"/"+p.Name] {
+					seenPod[p.Namespace+"/"+p.Name] = true
+					v.Pods = append(v.Pods, p)
+				}
+			}
+			for _, p := range st.Pods() {
+				if !seenPod[p.Namespace+"/"+p.Name] {
+					seenPod[p.Namespace+"/"+p.Name] = true
+					v.Pods = append(v.Pods, p)
+				}
 			}
 		}
 	}
